@@ -49,6 +49,25 @@ CHECKS["C01"] = dict(
          "histories (a differential, not a reference model).",
     design="4/C01")
 
+CHECKS["C02"] = dict(
+    technique="exhaustive construct->decode round trip over the argument space of every command class, plus "
+              "illegal-argument fault enumeration per argument position",
+    text="Every concrete class in Command._commands (329, discovered at run time) is constructed from every legal "
+         "argument tuple (thorough: complete products incl. 52 instance commands x 98 destinations x 195 instance bytes, "
+         "256x256 two-byte specials, all event schemes/fields; quick: seeded sample with boundaries), decoded under its own "
+         "device type / instance map and compared field by field and by str(). Illegal values (-1, first above range, 2^31, "
+         "None, float, str, bytes, wrong-kind addresses, conflicting event keywords, address-object constructors) must raise.",
+    note="Trusted: the abstract argument descriptions in props/c02.py; equality of address objects (C04).",
+    design="4/C02")
+CHECKS["C12"] = dict(
+    technique="exhaustive enumeration of the event frame space against a hand-written reference event decoder; "
+              "metamorphic (map vs in-frame type) and retry-vs-direct differentials",
+    text="Thorough: all 2^23 frames with bit 16 clear without a map, all 2^21 device/instance frames under maps "
+         "resolving to types 1, 3, 4, 0 and to nothing, every type 0..31 (+32, 77, 255) on 64 sources with retry_decode, "
+         "four ways of building a map. Quick: strides 13/11 over the same strata.",
+    note="Trusted: the reference decoder in props/c12.py transcribed from IEC 62386-103 Table 3, -301 Table 2, -303, -304.",
+    design="4/C12")
+
 NOT_BUILT_REASON = "check not built yet in this round (planned, see DESIGN.md section 4); not claimed until it is registered"
 
 
